@@ -265,18 +265,18 @@ private theorem buildFields_frame (N : List (String × Addr)) (h0 h : Heap) (f :
     simp only [buildFields]
     exact ih _ ((buildArgs_frame N h0 h f _).trans (alloc_frame _ _))
 
-private theorem extendOne_frame (cfg : Cfg) (ext : Ext) (N : List (String × Addr)) (h0 h : Heap) (f : Frame h0 h)
-    (t : TypeO) (na : Addr) (hna : h0.size ≤ na) : Frame h0 (extendOne cfg ext N h t na) := by
+private theorem extendOne_frame (cfg : Cfg) (ext : Ext) (N Nin : List (String × Addr)) (h0 h : Heap) (f : Frame h0 h)
+    (t : TypeO) (na : Addr) (hna : h0.size ≤ na) : Frame h0 (extendOne cfg ext N Nin h t na) := by
   simp only [extendOne]
   apply write_fresh_frame _ _ _ hna
   split
-  · exact buildArgs_frame N h0 _ (extendArgs_frame _ N h0 h f _) _
+  · exact buildArgs_frame Nin h0 _ (extendArgs_frame _ N h0 h f _) _
   · exact buildFields_frame N h0 _ (extendFields_frame cfg N h0 h f _) _
   · exact buildFields_frame N h0 _ (extendFields_frame cfg N h0 h f _) _
   · exact f
 
-private theorem extendAll_frame (cfg : Cfg) (ext : Ext) (N P : List (String × Addr)) (h0 hr h : Heap) (f : Frame h0 h)
-    (hP : ∀ e, e ∈ P → h0.size ≤ e.2) (l : List (String × Addr)) : Frame h0 (extendAll cfg ext N P hr h l) := by
+private theorem extendAll_frame (cfg : Cfg) (ext : Ext) (N Nin P : List (String × Addr)) (h0 hr h : Heap) (f : Frame h0 h)
+    (hP : ∀ e, e ∈ P → h0.size ≤ e.2) (l : List (String × Addr)) : Frame h0 (extendAll cfg ext N Nin P hr h l) := by
   induction l generalizing h with
   | nil => exact f
   | cons e rest ih =>
@@ -287,7 +287,7 @@ private theorem extendAll_frame (cfg : Cfg) (ext : Ext) (N P : List (String × A
     · split
       · rename_i t na _ hl
         obtain ⟨e, he, rfl⟩ := lookup_mem P n na hl
-        exact ih _ (extendOne_frame cfg ext N h0 h f t e.2 (hP e he))
+        exact ih _ (extendOne_frame cfg ext N Nin h0 h f t e.2 (hP e he))
       · exact ih h f
 
 private theorem buildNewTypes_frame (N P : List (String × Addr)) (h0 h : Heap) (f : Frame h0 h)
@@ -335,7 +335,7 @@ theorem extend_frames_source (cfg : Cfg) (ext : Ext) (s : Schema) (h : Heap) : F
   apply buildNewDirs_frame
   apply extendDirs_frame
   apply buildNewTypes_frame _ _ _ _ _ gp
-  exact extendAll_frame _ _ _ _ _ _ _ fp gp _
+  exact extendAll_frame _ _ _ _ _ _ _ _ fp gp _
 
 /-- induction over operation sequences: any number of extensions applied to schemas on the heap never write `h0` -/
 theorem extend_sequence_frames_source (cfg : Cfg) (ops : List (Ext × Schema)) (h0 : Heap) :
